@@ -534,11 +534,20 @@ impl<const N: usize> Exec<N> {
             if vo.vprint.contains('Δ') != has {
                 // a datum that appears from a re-added vertex of h is also add()'s blank-slate clause
                 let from_readded = mapping.iter().any(|(hv, gv)| *gv == vo.v && hm.collected_ever.contains(hv));
-                return fail(
+                let f = fail::<()>(
                     "merge.data-presence",
                     if from_readded { &["C11", "C04"] } else { clauses::C11 },
                     format!("after merge v_print(ν{}) = {}, expected data: {has}", vo.v, vo.vprint),
-                );
+                )
+                .unwrap_err();
+                if self.owned(&f) {
+                    return Err(f);
+                }
+                // observational: a check that does not own it goes on; the model holds what the
+                // merge should have put, so the continuation's data() answers and collections are
+                // judged by the clauses of the running check
+                self.stats.bump("foreign.passed_over.merge.data-presence");
+                break;
             }
         }
         // data bytes, read on a throw-away clone so the graph itself is not disturbed
@@ -558,11 +567,17 @@ impl<const N: usize> Exec<N> {
                 Ok(got) => {
                     for ((gv, d), x) in expect.iter().zip(got.iter()) {
                         if x.as_ref() != Some(d) {
-                            return fail(
+                            let f = fail::<()>(
                                 "merge.data-differs",
                                 clauses::C11,
                                 format!("ν{gv} should carry {d:?} after merge, data() gives {x:?}"),
-                            );
+                            )
+                            .unwrap_err();
+                            if self.owned(&f) {
+                                return Err(f);
+                            }
+                            self.stats.bump("foreign.passed_over.merge.data-differs");
+                            break;
                         }
                     }
                 }
